@@ -723,29 +723,33 @@ def defineRemaining (d : Decls) (defs : Defs) (nodes : List AstNode) : Except St
 
 /-! ## `match_all` -/
 
+/-- `query_variable` of `get_match_statically_known` -/
+def matchQv (d : Decls) (defs : Defs) (symCtx : List String) : Nat → List String → Bool := fun level path =>
+  -- a builtin takes precedence over a declared symbol of the same name
+  if level == 0 && (path.head? == some "$" || path.head? == some "pc" || (path.head?.map isAsmBuiltinName).getD false) then false
+  else match d.symbols.tryGetByName symCtx level path with
+    | none => false
+    | some r => (defs.sym r).known
+
+/-- the provider without locals: arguments are judged outside the rule's scope (`args_provider`) -/
+def matchP0 (d : Decls) (defs : Defs) (symCtx : List String) : SKProvider :=
+  { queryVariable := matchQv d defs symCtx, queryFunction := asmBuiltinKnown }
+
 mutual
 /-- `get_match_statically_known` -/
 def matchKnown (d : Decls) (defs : Defs) (symCtx : List String) : Nat → IMatch → Bool
   | 0, _ => false
   | fuel + 1, m =>
     let rule := (defs.ruledefs.getD m.ruledef default).rules.getD m.rule default
-    let qv : Nat → List String → Bool := fun level path =>
-      -- a builtin takes precedence over a declared symbol of the same name
-      if level == 0 && (path.head? == some "$" || path.head? == some "pc" || (path.head?.map isAsmBuiltinName).getD false) then false
-      else match d.symbols.tryGetByName symCtx level path with
-      | none => false
-      | some r => (defs.sym r).known
-    -- arguments are judged outside the rule's scope (`args_provider`); the production with
-    -- every parameter as a local
-    let p0 : SKProvider := { queryVariable := qv, queryFunction := asmBuiltinKnown }
-    match matchKnownArgs d defs symCtx fuel rule m.args 0 p0 p0 with
+    -- the production is judged with every parameter as a local
+    match matchKnownArgs d defs symCtx fuel rule m.args 0 (matchP0 d defs symCtx) (matchP0 d defs symCtx) with
     | none => false
     | some p => staticallyKnown p rule.expr
 
 /-- `none` = some argument is not statically known (the match is then not statically known) -/
 def matchKnownArgs (d : Decls) (defs : Defs) (symCtx : List String) : Nat → Rule → List IArg → Nat → SKProvider → SKProvider →
     Option SKProvider
-  | 0, _, _, _, _, p => some p
+  | 0, _, _, _, _, _ => none
   | _ + 1, _, [], _, _, p => some p
   | fuel + 1, rule, a :: rest, i, pa, p =>
     let param := rule.params.getD i ("", .unspecified)
